@@ -70,6 +70,17 @@ SNIPPETS = [
     "xs = [3, 1, 2]\nreturn sorted(xs) == [1, 2, 3] and xs == [3, 1, 2], list(zip(xs, 'ab'))",
     "d = {k: [] for k in range(2)}\nd[0].append(1)\nreturn d",
     "level_map = {0: 2, 1: 0}\nreturn {level_map[i]: v for i, v in {0: 'a', 1: 'b'}.items()}",
+    "g = (i for i in range(10) if i % 3 == 2)\nreturn next(g, None), next(g), list(g), next(g, 'end')",
+    "succ = {1: 0, 2: 0}\nfree = next((i for i in range(1, 9) if i not in succ), None)\nnone = next((i for i in range(1, 3) if i not in succ), None)\nreturn free, none",
+    "log = []\ndef f(x):\n    log.append(x)\n    return x * 2\ng = (f(x) for x in [1, 2, 3])\na = next(g)\nreturn a, log",
+    "kinds = ('unary', 'binary', 'ternary')\nops = {'unary': {'~'}, 'binary': {'&'}, 'ternary': {'ite'}}\nreturn next((k for k, kind in enumerate(kinds, 1) if '&' in ops[kind]), None)",
+    "pairs = zip(*((x, x + 1) for x in (1, 2, 3)))\nlo, hi = pairs\nreturn lo, hi, sum(x for x in lo), min(x for x in hi), tuple(x for x in lo), dict((x, 1) for x in lo)",
+    "import_free = any(x > 1 for x in [0, 1, 2])\nreturn import_free, sorted(x for x in {3, 1, 2}), set(x for x in [1, 1, 2])",
+    "def gen(xs):\n    for x in xs:\n        if x < 0:\n            return\n        yield x * 2\n    yield 'end'\nreturn list(gen([1, 2])), list(gen([1, -1, 2])), next(gen([]), None)",
+    "def pairs(d):\n    yield from d.items()\n    yield ('z', 0)\nfor k, v in pairs({'a': 1}):\n    if v == 0:\n        return k\nreturn None",
+    "class Box:\n    def __init__(self, x):\n        self.x = x\n        self.log = []\n    def bump(self, k=1):\n        self.x += k\n        self.log.append(self.x)\n        return self\nb = Box(1)\nb.bump().bump(5)\nreturn b.x, b.log, hasattr(b, 'x'), hasattr(b, 'y')",
+    "log = []\nclass Guard:\n    def __init__(self, name):\n        self.name = name\n    def __enter__(self):\n        log.append('in ' + self.name)\n        return self.name\n    def __exit__(self, t, v, tb):\n        log.append(('out', self.name, t is None))\n        return False\ndef f():\n    with Guard('a') as n:\n        log.append(n)\n        return 7\nr = f()\ntry:\n    with Guard('b'):\n        raise ValueError('x')\nexcept ValueError:\n    log.append('caught')\nreturn r, log",
+    "class Swallow:\n    def __enter__(self):\n        return None\n    def __exit__(self, t, v, tb):\n        return t is not None\nwith Swallow():\n    raise KeyError('k')\nreturn 'after'",
     "def f(*args, **kw):\n    return args, kw\nreturn f(1, 2, k=3), f(*[4, 5], **{'z': 6})",
 ]
 
